@@ -304,9 +304,12 @@ func (m *resourceManager) handleReadResource(ctx context.Context, req *JSONRPCRe
 
 	// Extract and set arguments if present.
 	if args, ok := paramsMap["arguments"]; ok && args != nil {
-		if argsMap, ok := args.(map[string]interface{}); ok {
-			readReq.Params.Arguments = argsMap
+		argsMap, ok := args.(map[string]interface{})
+		if !ok {
+			errMsg := fmt.Sprintf("%v: arguments must be an object, got %T", errors.ErrInvalidParams, args)
+			return newJSONRPCErrorResponse(req.ID, ErrCodeInvalidParams, errMsg, nil), nil
 		}
+		readReq.Params.Arguments = argsMap
 	}
 
 	// Call resource handler
